@@ -481,21 +481,25 @@ def run_check(pid, tier, seed, replay=None):
     return rc
 
 def setup():
-    bad = gate()
-    if bad:
-        print('forbidden constructs:\n' + '\n'.join(bad))
-        return 2
+    """Build the Coq development for every property claimed in MANIFEST.json (full .vo build)."""
     sys.path.insert(0, os.path.join(VERIF, 'props'))
-    for f in sorted(glob.glob(os.path.join(VERIF, 'props', 'C*.py'))):
-        pid = os.path.basename(f)[:-3]
+    man = json.load(open(os.path.join(VERIF, 'MANIFEST.json')))
+    pids = [c['property_id'] for c in man['checks']]
+    targets, dirs = [], {'Common'}
+    for pid in pids:
         try:
             plugin = importlib.import_module(pid)
             if hasattr(plugin, 'translate'):
                 plugin.translate()
+            dirs.add(plugin.COQ_DIR)
+            dirs |= set(getattr(plugin, 'EXTRA_COQ_DIRS', ()))
+            targets += [f'{plugin.COQ_DIR}/{pf}o' for pf in getattr(plugin, 'PROPS_FILES', ('Props.v',))]
         except Exception as e:
-            print(f'setup: translator of {pid} failed: {e}')
-    with Lock():
-        refresh_makefile()
-    ok, out = make([], jobs=16, timeout=3400)
+            print(f'setup: {pid}: {type(e).__name__}: {e}')
+    bad = gate(dirs)
+    if bad:
+        print('forbidden constructs:\n' + '\n'.join(bad))
+        return 2
+    ok, out = make(targets, jobs=16, timeout=3400)
     print(out[-3000:])
     return 0 if ok else 1
